@@ -211,10 +211,13 @@ def dba(s, c, mask=None, samples=None, use_c=False, nb_initial_samples=None, **k
         if mask is not None and not mask[idx]:
             continue
         if use_c:
+            # The C code reads the buffers as contiguous arrays of doubles
+            c_c = util_numpy.verify_np_array(c)
+            seq_c = util_numpy.verify_np_array(seq)
             if ndim == 1:
-                m = dtw_cc.warping_path(c, seq, **kwargs)
+                m = dtw_cc.warping_path(c_c, seq_c, **kwargs)
             else:
-                m = dtw_cc.warping_path_ndim(c, seq, ndim=ndim, **kwargs)
+                m = dtw_cc.warping_path_ndim(c_c, seq_c, ndim=ndim, **kwargs)
         else:
             if ndim == 1:
                 m = warping_path(c, seq, **kwargs)
